@@ -57,7 +57,7 @@ def topBytes (σ : St) (s : State) : Option (List (BitVec 8)) := readMem σ.mem 
 /-- The simulation statement for one eBPF instruction `i`: whenever its arm's instruction sequence `ais` is what
     the code holds from offset `a` to offset `b` (code addresses stay below 2^63), the machine is at `a` representing `s` (whose `pc` is already past
     `i`, as in `jitStep`), and the register-transfer semantics continue with `s'`, then the machine reaches, in
-    finitely many steps, a state representing `s'` with the bytes above the eBPF stack untouched — at `b` when control falls through to the next instruction, at
+    finitely many steps, a state representing `s'` with the bytes above the eBPF stack untouched and no external call made — at `b` when control falls through to the next instruction, at
     the location of the arm of `s'.pc` when a jump is taken. -/
 def ArmSim (i : Insn) : Prop :=
   ∀ (c : Cfg) (tgt : Tgt → Option Nat) (haddr : Nat → Option Nat) (pc n a b retAddr : Nat) (ais : List AI)
@@ -69,6 +69,7 @@ def ArmSim (i : Insn) : Prop :=
     Rel0 retAddr σ s → s.pc = pc + 1 →
     EngineSem.jitExec env s i = .next s' →
     ∃ k σ', stepsN c k σ = some σ' ∧ Rel0 retAddr σ' s' ∧ topBytes σ' s' = topBytes σ s ∧
+      σ'.log = σ.log ∧ σ'.misaligned = σ.misaligned ∧ s'.log = s.log ∧
       ((s'.pc = pc + n ∧ σ'.rip = c.codeBase + b) ∨
        (∃ l, tgt (.pc (s'.pc : Int)) = some l ∧ σ'.rip = c.codeBase + l))
 
